@@ -504,10 +504,11 @@ func writePacketAdaptationField(w *astikit.BitsWriter, af *PacketAdaptationField
 	}
 
 	if af.HasTransportPrivateData {
-		// we can get length from TransportPrivateData itself, why do we need separate field?
-		b.Write(uint8(af.TransportPrivateDataLength))
+		// The length is the one of the data that gets written, which is what the packet has been sized with, whatever
+		// TransportPrivateDataLength holds
+		b.Write(uint8(len(af.TransportPrivateData)))
 		bytesWritten++
-		if af.TransportPrivateDataLength > 0 {
+		if len(af.TransportPrivateData) > 0 {
 			b.Write(af.TransportPrivateData)
 		}
 		bytesWritten += len(af.TransportPrivateData)
